@@ -223,10 +223,10 @@ Ltac meas_tac P :=
          | let v1 := fresh "v1" in let i1 := fresh "i1" in let v2 := fresh "v2" in let i2 := fresh "i2" in
            intros [v1 i1 v2 i2] [? ?] [? ?]; cbn in *; absdiv; first [ knsatz | wit_all; knsatz ] ].
 Theorem meas_of_Bs_driven_ok (Z0 a b c d : K) (dr : drive) (q : quant) :
-  a <> 0 -> b <> 0 -> c <> 0 -> d <> 0 -> dr <> NoDrive -> (forall v, port_cond dr q v -> port_cond dr q v /\ True) ->
-  (exists v, port_cond dr q v) -> is_meas (rel_B Z0 (Mat a b c d)) dr q (meas_of_Bs (TPM (Mat a b c d) 0 0) dr q).
+  a <> 0 -> b <> 0 -> c <> 0 -> d <> 0 -> dr <> NoDrive ->
+  (exists v, port_cond dr q v) (* the pair is a measurement: no short across the driven port *) -> is_meas (rel_B Z0 (Mat a b c d)) dr q (meas_of_Bs (TPM (Mat a b c d) 0 0) dr q).
 Proof.
-  intros Ha Hb Hc Hd Hdr _ [v0 Hv0]. set (det := a * d - b * c).
+  intros Ha Hb Hc Hd Hdr [v0 Hv0]. set (det := a * d - b * c).
   destruct dr, q; try (exfalso; exact Hv0); try (exfalso; apply Hdr; reflexivity); clear v0 Hv0 Hdr; unfold rel_B; cbn [meas_of_Bs tB tV2b tI2b m11 m12 m21 m22].
   - meas_tac (Port 1 (- (c / d)) ((a * d - b * c) / d) 0).
   - meas_tac (Port 1 (- (c / d)) ((a * d - b * c) / d) 0).
